@@ -26,6 +26,8 @@ matches is an oracle (`Pat.ms`); the COMBINATION is `globs`.
   all that was hashed before the fix — is the same for both trees.
 * `C05_detect_checksum` / `C05_detect_partial` — the single-change classes change the stream itself
   (edit / add / remove), hence (`FpInj`) the fingerprint, hence the task reruns (`C05_detect_rerun`).
+  `FpInj_of_HashInj`: `FpInj` follows from the no-collision hypothesis `HashInj` of each of the two
+  hashes, the second half of the checksum being printed in a fixed width.
 * `C05_detect_move` (F8) — the name hashed with a source is its path relative to the task
   directory (`nameOf`), distinct for distinct matched paths (`NamesInj`): a matched file replaced
   by ANOTHER PATH with the same content — a move to another directory, a rename — changes the
